@@ -27,7 +27,7 @@ Answer:  <final> <path> <cors> <hits>     final = refused:<why> | handled:<patte
          cors = 0|1|2;  hits = invocations of probe-module handlers.
          `too-many-redirects` when the /id/ chain does not end within 16 hops, `bad-op` outside the domain
          (malformed, unsafe path bytes, CONNECT with an unclean path anywhere in the /id/ chain — the mux does
-         not canonicalise CONNECT —, POST that can end at /stop, which exits the process).
+         not canonicalise CONNECT).
 -/
 import CaddyModel.C13.Listen
 import CaddyModel.C13.Caddyfile
@@ -182,7 +182,6 @@ def handleReq (load : Bool) : List String → String
           | none => "too-many-redirects"
           | some chain =>
             if m == sCONNECT && !chain.all isCleanPath then "bad-op"
-            else if m == sPOST && chain.contains pStop then "bad-op"
             else match parseAdminListenAddr listen (if side == "R" then defaultRemoteListen else defaultLocalListen) with
               | .err => "listen-error"
               | .ok network ahost port =>
